@@ -279,6 +279,8 @@ class Prover:
         if hb <= 0 and lb < 0:            # negative denominator: flip
             la, ha, lb, hb = -ha, -la, -hb, -lb
         # now the denominator is >= 0 (the value is looked at only where it is a number)
+        if hb <= 0 or hb != hb or lb != lb or lb > hb:
+            return (-INF, INF)          # a denominator that is identically zero / empty: nothing to say
         inv_lo = 0.0 if hb == INF else 1.0 / hb
         inv_hi = INF if lb <= 0 else 1.0 / lb
         c = [_mulb(la, inv_lo), _mulb(la, inv_hi), _mulb(ha, inv_lo), _mulb(ha, inv_hi)]
@@ -292,6 +294,11 @@ class Prover:
                 for k, v in cb[0].items():
                     if k in ca[0] and v != 0:
                         cands.add(abs(ca[0][k] / v))
+                if len(cands) == 1 and ca[0] and cb[0]:
+                    # numerator and denominator share no atom (smoothed +DM over smoothed TR): the most frequent ratios of their weights
+                    from collections import Counter
+                    cnt = Counter(round(abs(x / y), 9) for x in ca[0].values() for y in cb[0].values() if y != 0)
+                    cands.update(r for r, _ in cnt.most_common(3))
                 cands = sorted(c for c in cands if c == c and c != INF)
 
                 def scaled_minus(K, sign):          # K*b - sign*a
@@ -422,6 +429,29 @@ class Prover:
         co = {k: v for k, v in co.items() if v != 0.0}
         if not co:
             return c0 >= -TOL
+        # a negative |x| atom: -w|x| = min(-w x, w x), so the form is >= 0 iff it is with |x| replaced by x and by -x
+        for k, v in co.items():
+            nd = self.node[k]
+            if v < 0 and nd.op in ("abs", "fabs") and isinstance(nd.args[0], D) and getattr(self, "_abs_depth", 0) < 3:
+                fx = self.linear(nd.args[0])
+                if fx is None or (len(fx[0]) == 1 and nd.args[0].h in fx[0] and nd.args[0].op in ("abs", "fabs")):
+                    continue
+                self._abs_depth = getattr(self, "_abs_depth", 0) + 1
+                try:
+                    ok = True
+                    for sgn in (1.0, -1.0):
+                        c2 = {kk: vv for kk, vv in co.items() if kk != k}
+                        for kk, vv in fx[0].items():
+                            c2[kk] = c2.get(kk, 0.0) + sgn * v * vv
+                        c2, k0 = self._clean((c2, c0 + sgn * v * fx[1]))
+                        if not self._form_nonneg(c2, k0):
+                            ok = False
+                            break
+                finally:
+                    self._abs_depth -= 1
+                if ok:
+                    return True
+                break
         pos = {k: v for k, v in co.items() if v > 0}
         neg = {k: -v for k, v in co.items() if v < 0}
         const = c0
@@ -537,9 +567,29 @@ class Prover:
             x = b.args[0]
             if self.le(a, x, depth - 1):
                 return True
+            fa_, fx_ = self.linear(a), self.linear(x)
+            if fa_ is not None and fx_ is not None:
+                # a <= -x  (|x| >= -x)
+                co = {k: -v for k, v in fx_[0].items()}
+                for k, v in fa_[0].items():
+                    co[k] = co.get(k, 0.0) - v
+                co, c0 = self._clean((co, -fx_[1] - fa_[1]))
+                if self._form_nonneg(co, c0):
+                    return True
             if isinstance(x, D) and x.op == "sub" and isinstance(a, D) and a.op == "sub":
                 # a = p - q, |r - s| with (p, q) = (s, r)
                 if all(isinstance(t, D) for t in (a.args + x.args)) and a.args[0].h == x.args[1].h and a.args[1].h == x.args[0].h:
+                    return True
+        if isinstance(a, D) and a.op in ("abs", "fabs") and isinstance(a.args[0], D):
+            # |x| <= b  <=>  x <= b and -x <= b
+            x = a.args[0]
+            fx_, fb_ = self.linear(x), self.linear(b)
+            if fx_ is not None and fb_ is not None and self.le(x, b, depth - 1):
+                co = dict(fb_[0])
+                for k, v in fx_[0].items():
+                    co[k] = co.get(k, 0.0) + v
+                co, c0 = self._clean((co, fb_[1] + fx_[1]))
+                if self._form_nonneg(co, c0):
                     return True
         if isinstance(a, D) and a.op in ("phi", "phi1") and len(a.args) == 3:
             if all(self.le(x, b, depth - 1) for x in a.args[1:]):
